@@ -27,7 +27,9 @@ CONSTANTS NProms,        \* set of numbers of Prometheus servers (subset of 1..2
           Eols,          \* subset of {"lf", "crlf"}: line endings of the rule file
           Rules,         \* subset of DOMAIN FileRules: rules comments are written on
           Scopes,        \* subset of {"rule", "file"}
-          Priors,        \* subset of {"none", "expired"}: an expired snooze for the same check already in front
+          Priors,        \* subset of {"none", "expired", "filefuture"}: a comment for the same check already in the file: an
+                         \*   expired snooze in front, or (rule comments) a future file/snooze on the first line
+          Extras,        \* BOOLEAN (binding only): rule/owner, file/owner and rule/set comments; the column-0 placement (F11)
           OnlyBasePairs, \* BOOLEAN: rule comments only for (rule, check) pairs with a problem in the base report (C07Base)
           AllPlacements, \* BOOLEAN: every trailing / between position, or one of each
           Slim           \* BOOLEAN: only `disable <check name>` written above the rule / on top of the file
@@ -68,12 +70,20 @@ Layout(n) ==
 Future == [rfc |-> "2099-01-02T03:04:05Z", date |-> "2099-01-02"]
 Past   == [rfc |-> "2001-01-02T03:04:05Z", date |-> "2001-01-02"]
 \* [scope, type, when ("none" | "future" | "past"), tfmt ("rfc" | "date"), match]
+OwnerName == "team-a"
+SetText   == "promql/series min-age 1d"
 CommentText(c) ==
+  IF c.type = "owner" THEN "# pint " \o (IF c.scope = "file" THEN "file/" ELSE "rule/") \o "owner " \o c.match
+  ELSE IF c.type = "set" THEN "# pint rule/set " \o c.match
+  ELSE
   "# pint " \o (IF c.scope = "file" THEN "file/" ELSE "") \o c.type \o " "
   \o (IF c.type = "snooze" THEN (IF c.when = "future" THEN Future ELSE Past)[c.tfmt] \o " " ELSE "")
   \o c.match
 Timing == { [type |-> "disable", when |-> "none", tfmt |-> "rfc"] }
           \cup { [type |-> "snooze", when |-> w, tfmt |-> f] : w \in {"future", "past"}, f \in {"rfc", "date"} }
+\* comments that name no check: they must change no report (the property statement is silent: binding only)
+ExtraForms == { [type |-> "owner", when |-> "none", tfmt |-> "rfc"], [type |-> "set", when |-> "none", tfmt |-> "rfc"] }
+IsExtra(c) == c.type \in {"owner", "set"}
 
 \* kinds whose docs page documents the instance spelling that equals String()
 DocInstanceKinds == {"aggregate_keep", "aggregate_strip", "cost", "annotation", "label", "link", "name", "range_query", "reject_lk", "reject_lv"}
@@ -100,6 +110,7 @@ NegativeSpellings(pr) ==
 -----------------------------------------------------------------------------
 (* Doc side.                                                                *)
 DocSuppresses(c, pr) ==
+  /\ ~IsExtra(c)
   /\ c.match \in DocSpellings(pr)
   /\ (c.type = "snooze" => c.when = "future")       \* "disabled *until* that timestamp"
   /\ (c.scope = "rule" => ~pr.locked)              \* locked: cannot be disabled using disable / snooze comments
@@ -145,15 +156,20 @@ ChooseTarget(sc, r, pr) ==
 ChooseForm(tm, pri) ==
   /\ phase = "form"
   /\ (Slim => tm.type = "disable" /\ pri = "none")
+  /\ (pri = "filefuture" => cmt.scope = "rule")            \* interplay of a rule comment with a file/snooze
+  /\ (tm \in ExtraForms => Extras /\ pri = "none" /\ (tm.type = "set" => cmt.scope = "rule"))
   /\ cmt' = [cmt EXCEPT !.type = tm.type, !.when = tm.when, !.tfmt = tm.tfmt]
   /\ prior' = pri /\ phase' = "spell"
   /\ UNCHANGED <<cfg, layout, eol, insts, pairs, rule, tinst, place, target>>
 
 \* 4. how the check is named. Not generated: spellings the documentation is ambiguous about, and file comments naming
 \* a check of a locked block (the documentation is silent on file/disable for locked blocks)
+SpellingsFor(c, pr) ==
+  IF c.type = "owner" THEN {OwnerName} ELSE IF c.type = "set" THEN {SetText} ELSE DocSpellings(pr) \cup NegativeSpellings(pr)
 ChooseSpelling(m) ==
   /\ phase = "spell"
-  /\ m \in DocSpellings(tinst) \cup NegativeSpellings(tinst)
+  /\ m \in SpellingsFor(cmt, tinst)
+  /\ (prior = "filefuture" => ~\E q \in insts : q.locked /\ m \in DocSpellings(q))
   /\ (Slim => m = tinst.rep)
   /\ ~\E q \in insts : m \in AmbiguousSpellings(q)
   /\ (cmt.scope = "file" => ~\E q \in insts : q.locked /\ m \in DocSpellings(q))
@@ -167,6 +183,9 @@ Places ==
   ELSE {[at |-> "above", line |-> FileRules[rule].first]}
        \cup {[at |-> "between", line |-> x] : x \in BetweenLines(rule)}
        \cup {[at |-> "trail", line |-> x] : x \in TrailLines(rule)}
+       \* F11, binding only: a comment at column 0 directly above the (indented) rule; yaml.v3 hands it to the
+       \* PREVIOUS rule as a foot comment. Only for rules that have a previous rule, only with check-naming comments.
+       \cup (IF Extras /\ rule > 1 /\ ~IsExtra(cmt) /\ prior = "none" THEN {[at |-> "above0", line |-> FileRules[rule].first]} ELSE {})
 
 \* 5. where it is written; place.line is in the numbering of the committed file (FileRules)
 ChoosePlace(p) ==
@@ -180,27 +199,29 @@ AllSpellings == UNION {DocSpellings(pr) \cup NegativeSpellings(pr) : pr \in inst
 Next ==
   \/ \E np \in NProms, n \in LayoutIds, el \in Eols : ChooseScenario(np, n, el)
   \/ \E sc \in Scopes, r \in Rules \cup {0}, pr \in insts : ChooseTarget(sc, r, pr)
-  \/ \E tm \in Timing, pri \in Priors : ChooseForm(tm, pri)
-  \/ \E m \in (IF phase = "spell" THEN DocSpellings(tinst) \cup NegativeSpellings(tinst) ELSE {}) : ChooseSpelling(m)
+  \/ \E tm \in Timing \cup ExtraForms, pri \in Priors : ChooseForm(tm, pri)
+  \/ \E m \in (IF phase = "spell" THEN SpellingsFor(cmt, tinst) ELSE {}) : ChooseSpelling(m)
   \/ \E p \in (IF phase = "place" THEN Places ELSE {}) : ChoosePlace(p)
 Spec == Init /\ [][Next]_vars
 
 -----------------------------------------------------------------------------
 (* Impl: what the comments become for the entries of the file.              *)
 \* the expired snooze that is already in the file in front of the new comment (same scope, same check)
-PriorCmt(c) == [c EXCEPT !.type = "snooze", !.when = "past", !.tfmt = "rfc"]
-CmtSeq(c, pri) == IF pri = "expired" THEN <<PriorCmt(c), c>> ELSE <<c>>
+PriorCmt(c, pri) ==
+  IF pri = "filefuture" THEN [c EXCEPT !.scope = "file", !.type = "snooze", !.when = "future", !.tfmt = "date"]
+  ELSE [c EXCEPT !.type = "snooze", !.when = "past", !.tfmt = "rfc"]
+CmtSeq(c, pri) == IF pri = "none" THEN <<c>> ELSE <<PriorCmt(c, pri), c>>
 
 \* parser.parseRule keeps disable / snooze comments attached to the rule, in file order; discovery.readRules turns
 \* file/disable and unexpired file/snooze comments into Entry.DisabledChecks of every rule of the file
 EntryWithSeq(cs, targeted) ==
-  LET e == PlainEntry("rule", "noop")
-      live == SelectSeq(cs, LAMBDA c : c.type = "disable" \/ c.when = "future") IN
-  IF Len(cs) > 0 /\ cs[1].scope = "file"
-  THEN [e EXCEPT !.fileDisabled = [i \in DOMAIN live |-> live[i].match]]
-  ELSE IF targeted
-  THEN [e EXCEPT !.comments = [i \in DOMAIN cs |-> [type |-> cs[i].type, match |-> cs[i].match, future |-> (cs[i].when = "future")]]]
-  ELSE e
+  LET e    == PlainEntry("rule", "noop")
+      fs   == SelectSeq(cs, LAMBDA c : c.scope = "file" /\ (c.type = "disable" \/ (c.type = "snooze" /\ c.when = "future")))
+      rs   == SelectSeq(cs, LAMBDA c : c.scope = "rule" /\ c.type \in {"disable", "snooze"})   \* comments.Only[Disable|Snooze]
+      e1   == [e EXCEPT !.fileDisabled = [i \in DOMAIN fs |-> fs[i].match]] IN
+  IF targeted
+  THEN [e1 EXCEPT !.comments = [i \in DOMAIN rs |-> [type |-> rs[i].type, match |-> rs[i].match, future |-> (rs[i].when = "future")]]]
+  ELSE e1
 EntryWith(c, pri, targeted) == EntryWithSeq(CmtSeq(c, pri), targeted)
 
 ImplChecksWith(c, pri, targeted) == GetChecksForEntry(Load(cfg), EntryWith(c, pri, targeted), "lint")
@@ -210,23 +231,25 @@ Key(pr) == <<pr.str, pr.rep>>
 \* changes nothing), elsewhere nothing changes
 Inv_C07 ==
   phase = "eval" =>
-    /\ {Key(pr) : pr \in Range(ImplChecksWith(cmt, prior, TRUE))} = {Key(pr) : pr \in {q \in insts : ~DocSuppresses(cmt, q)}}
-    /\ (prior = "expired" => {Key(pr) : pr \in Range(GetChecksForEntry(Load(cfg), EntryWithSeq(<<PriorCmt(cmt)>>, TRUE), "lint"))}
+    /\ {Key(pr) : pr \in Range(ImplChecksWith(cmt, prior, TRUE))}
+         = {Key(pr) : pr \in {q \in insts : ~DocSuppresses(cmt, q) /\ (prior = "filefuture" => ~DocSuppresses(PriorCmt(cmt, prior), q))}}
+    /\ (prior = "expired" => {Key(pr) : pr \in Range(GetChecksForEntry(Load(cfg), EntryWithSeq(<<PriorCmt(cmt, prior)>>, TRUE), "lint"))}
                                 = {Key(pr) : pr \in insts})
-    /\ (cmt.scope = "rule" => Strs(ImplChecksWith(cmt, prior, FALSE)) = Strs(GetChecksForEntry(Load(cfg), PlainEntry("rule", "noop"), "lint")))
+    /\ (cmt.scope = "rule" /\ prior # "filefuture" =>
+           Strs(ImplChecksWith(cmt, prior, FALSE)) = Strs(GetChecksForEntry(Load(cfg), PlainEntry("rule", "noop"), "lint")))
 
 \* line arithmetic of the relational predicate: a comment on its own line moves everything from that line on
-Inserted(p) == p.at \in {"above", "between", "top"}
+Inserted(p) == p.at \in {"above", "above0", "between", "top"}
 ShiftLine(x, p) == IF Inserted(p) /\ x >= p.line THEN x + 1 ELSE x
 \* where the expired snooze sits: directly above the rule / on the first line of the file
 PriorPlace(c, r, pri) ==
-  IF pri # "expired" THEN NoPlace
-  ELSE IF c.scope = "file" THEN [at |-> "top", line |-> 1] ELSE [at |-> "above", line |-> FileRules[r].first]
+  IF pri = "none" THEN NoPlace
+  ELSE IF PriorCmt(c, pri).scope = "file" THEN [at |-> "top", line |-> 1] ELSE [at |-> "above", line |-> FileRules[r].first]
 \* where the new comment goes in the numbering of the file that already holds the expired snooze: always after it
 \* ("above" = directly above the rule and below the expired snooze; "top" = second line)
 EffPlace(p, pp) ==
   IF pp.at = "none" THEN p
-  ELSE IF p.at \in {"above", "top"} THEN [p EXCEPT !.line = pp.line + 1]
+  ELSE IF p.at = pp.at /\ p.at \in {"above", "top"} THEN [p EXCEPT !.line = pp.line + 1]
   ELSE [p EXCEPT !.line = ShiftLine(p.line, pp)]
 
 \* instance table for JUDGE: String() -> instance
@@ -242,7 +265,8 @@ EmitScen == phase # "target" \/ PrintT(<<"SCEN", ToJson([cfg |-> cfg, layout |->
 CaseRec ==
   LET pp == PriorPlace(cmt, rule, prior) IN
   [cfg |-> cfg, layout |-> layout, nproms |-> Len(cfg.proms), eol |-> eol, rule |-> rule, cmt |-> cmt, text |-> CommentText(cmt),
-   prior |-> prior, priortext |-> IF prior = "expired" THEN CommentText(PriorCmt(cmt)) ELSE "", pplace |-> pp,
+   prior |-> prior, pcmt |-> IF prior = "none" THEN NoCmt ELSE PriorCmt(cmt, prior),
+   priortext |-> IF prior = "none" THEN "" ELSE CommentText(PriorCmt(cmt, prior)), pplace |-> pp,
    place |-> place, eplace |-> EffPlace(place, pp), target |-> target]
 EmitCase == phase # "eval" \/ PrintT(<<"CASE", ToJson(CaseRec)>>)
 =============================================================================
